@@ -733,6 +733,6 @@ func main() {
 		Run:          run,
 		MinDistinct:  150,
 		ChildTimeout: func(string) time.Duration { return 40 * time.Minute },
-		Assumptions:  []string{"when no relay returns a full block Propose waits on its context (reported under C20); the driver cancels it after 2.5 s and requires it to return then", "BodyRoot/Root of blocks are computed with the client library; header signing root with the reference merkleisation"},
+		Assumptions:  []string{"when no relay returns a full block Propose waits on its context (reported under C20); the driver cancels it after 2.5 s and requires it to return then", "a case during which the stall monitor saw the process starved of CPU (wake-up delay above 60 ms) is counted under cases_not_judged_process_stalled and not judged: the service's timeouts and the driver's watchdog are wall-clock", "BodyRoot/Root of blocks are computed with the client library; header signing root with the reference merkleisation"},
 	})
 }
